@@ -216,6 +216,9 @@ func runC01(c *Ctx, r *Report) {
 	c03r4(c, r) // case folding tables are only filled for a scheme name Init knows
 	c01r5(c, r)
 	c01r6(c, r)
+	c01r7(c, r)
+	c13r3(c, r) // a leftover worker of a cancelled scan shares its slab with the next scan: wrong matches
+	c02r10(c, r) // the pattern side and the text side fold the same letters
 	c01r4(c, r)
 	c02r8(c, r) // case and accent folding are the same in every matcher
 	oneSlabPerWorkerShared(c, r)
